@@ -129,6 +129,29 @@ def gen(rng, knobs):
                 ev, lab = copy.deepcopy(rng.choice(pool)), "authentic"
         script.append(["send", json.dumps(["EVENT", ev])])
         labels.append(lab)
+    # an authentic event, its removal (kind-5 by its author), then a forgery that reuses its id and
+    # signature with other fields changed
+    if rng.random() < 0.35:
+        orig = h.regular(author=rng.choice([0, 1]))
+        script.append(["send", json.dumps(["EVENT", orig])])
+        labels.append("authentic")
+        if rng.random() < 0.8:
+            script.append(["send", json.dumps(["EVENT", h.deletion(author=[k.pub for k in evgen.AUTHORS].index(orig["pubkey"]),
+                                                                  targets=[orig["id"]], created_at=histgen.T0)])])
+            labels.append("authentic")
+        script.append(["barrier"])
+        forged = copy.deepcopy(orig)
+        m = rng.choice(["content", "pubkey", "tags", "kind"])
+        if m == "content":
+            forged["content"] += " (edited)"
+        elif m == "pubkey":
+            forged["pubkey"] = evgen.AUTHORS[2].pub if orig["pubkey"] != evgen.AUTHORS[2].pub else evgen.AUTHORS[0].pub
+        elif m == "tags":
+            forged["tags"] = forged["tags"] + [["p", evgen.AUTHORS[1].pub]]
+        else:
+            forged["kind"] = 7 if forged["kind"] != 7 else 1
+        script.append(["send", json.dumps(["EVENT", forged])])
+        labels.append("reuse-id-sig-after-removal:" + m)
     bulk = []
     for _ in range(rng.randint(1, 5)):
         if rng.random() < 0.25:
